@@ -42,6 +42,35 @@ fn run_cmd(dir: &str, prog: &str, a: &[&str]) -> Result<String, String> {
 pub fn run(args: &Args) -> Report {
     let mut rep = Report::new("C07", "model_checking");
     if let Some(r) = &args.replay {
+        if let Some(ws) = r["replay"]["weights"].as_array() {
+            // a Schedule case: weights (+ leader-eligible subset)
+            let ws: Vec<u64> = ws.iter().map(|x| x.as_u64().unwrap_or(0)).collect();
+            let leaders = r["replay"]["leaders"].as_u64().map(|x| x as u32).unwrap_or((1 << ws.len()) - 1);
+            let keys = util::validator_keys(args.seed, ws.len().max(1));
+            let exact: u128 = ws.iter().map(|w| *w as u128).sum();
+            match catch(|| Schedule::new(ws.iter().enumerate().map(|(i, w)| ValidatorInfo { key: keys[i].public(), weight: *w, leader: leaders >> i & 1 == 1 }), LeaderSelection::default())) {
+                Err(p) => rep.violations.push(Violation { key: "replay".into(), what: format!("Schedule::new panicked: {p}"), replay: r["replay"].clone() }),
+                Ok(res) => {
+                    let fits = exact <= u64::MAX as u128;
+                    match res {
+                        Ok(sc) => {
+                            let got = (sc.total_weight(), sc.max_faulty_weight(), sc.quorum_threshold(), sc.subquorum_threshold());
+                            let n = exact as u64;
+                            let f = n.wrapping_sub(1) / 5;
+                            if !fits || got != (n, f, n - f, n - 3 * f) {
+                                rep.violations.push(Violation { key: "replay".into(), what: format!("Schedule::new({ws:?}, leaders {leaders:#b}) accepted with (total, f, quorum, sub-quorum) = {got:?}; exact total {exact}"), replay: r["replay"].clone() });
+                            }
+                        }
+                        Err(e) => {
+                            if fits {
+                                rep.violations.push(Violation { key: "replay".into(), what: format!("Schedule::new({ws:?}, leaders {leaders:#b}) refused ({e:#}) although the total {exact} fits"), replay: r["replay"].clone() });
+                            }
+                        }
+                    }
+                }
+            }
+            return rep;
+        }
         let n = r["replay"]["n"].as_u64().unwrap_or(1);
         if let Err(e) = check_n(n) {
             rep.violations.push(Violation { key: "replay".into(), what: e, replay: r["replay"].clone() });
@@ -231,32 +260,48 @@ pub fn run(args: &Args) -> Report {
     }
     // Schedule::new at the overflow boundary
     let keys = util::validator_keys(args.seed, 3);
-    let mk = |ws: &[u64]| catch(|| Schedule::new(ws.iter().enumerate().map(|(i, w)| ValidatorInfo { key: keys[i].public(), weight: *w, leader: true }), LeaderSelection::default()));
+    // ... in every leader-eligibility pattern: acceptance depends on the TOTAL weight only (a schedule whose
+    // total exceeds 2^64-1 must be refused also when the leaders' weight alone fits), and an accepted
+    // schedule reports the exact total and the thresholds of that total
+    let mk = |ws: &[u64], leaders: u32| catch(|| Schedule::new(ws.iter().enumerate().map(|(i, w)| ValidatorInfo { key: keys[i].public(), weight: *w, leader: leaders >> i & 1 == 1 }), LeaderSelection::default()));
     let mut boundary = 0;
     for (ws, ok) in [
         (vec![u64::MAX - 1, 1], true),
         (vec![u64::MAX], true),
         (vec![u64::MAX, 1], false),
+        (vec![1, u64::MAX], false),
         (vec![u64::MAX / 2 + 1, u64::MAX / 2 + 1], false),
+        (vec![u64::MAX / 2 + 1, u64::MAX / 2], true),
         (vec![u64::MAX, u64::MAX, 2], false),
         (vec![1, u64::MAX - 2, 1], true),
         (vec![1, u64::MAX - 1, 1], false),
+        (vec![u64::MAX, 2], false),
+        (vec![1 << 63, 1 << 63], false),
+        (vec![1 << 63, 1 << 62, 1 << 62], false),
     ] {
-        boundary += 1;
-        match mk(&ws) {
-            Err(p) => rep.violations.push(Violation { key: "schedule_new_panic".into(), what: format!("Schedule::new panicked for weights {ws:?}: {p}"), replay: json!({"harness":"c07","weights":ws}) }),
-            Ok(r) => {
-                if r.is_ok() != ok {
-                    rep.violations.push(Violation { key: "schedule_new_overflow".into(), what: format!("Schedule::new({ws:?}) {} but the exact sum {} 2^64-1", if r.is_ok() {"was accepted"} else {"was refused"}, if ok {"is within"} else {"exceeds"}), replay: json!({"harness":"c07","weights":ws}) });
-                } else if let Ok(s) = r {
-                    let exact: u128 = ws.iter().map(|w| *w as u128).sum();
-                    if s.total_weight() as u128 != exact {
-                        rep.violations.push(Violation { key: "schedule_total".into(), what: format!("Schedule::new({ws:?}).total_weight() = {} != {exact}", s.total_weight()), replay: json!({"harness":"c07","weights":ws}) });
+        for leaders in 1u32..(1 << ws.len()) {
+            boundary += 1;
+            let key = |k: &str| format!("{k}{}", if leaders == (1 << ws.len()) - 1 { "" } else { "_mixed_eligibility" });
+            match mk(&ws, leaders) {
+                Err(p) => rep.violations.push(Violation { key: key("schedule_new_panic"), what: format!("Schedule::new panicked for weights {ws:?}, leader-eligible subset {leaders:#b}: {p}"), replay: json!({"harness":"c07","weights":ws,"leaders":leaders}) }),
+                Ok(r) => {
+                    if r.is_ok() != ok {
+                        rep.violations.push(Violation { key: key("schedule_new_overflow"), what: format!("Schedule::new({ws:?}, leader-eligible subset {leaders:#b}) {} but the exact sum {} 2^64-1", if r.is_ok() {"was accepted"} else {"was refused"}, if ok {"is within"} else {"exceeds"}), replay: json!({"harness":"c07","weights":ws,"leaders":leaders}) });
+                    } else if let Ok(s) = r {
+                        let exact: u128 = ws.iter().map(|w| *w as u128).sum();
+                        let n = exact as u64;
+                        let got = (s.total_weight(), s.max_faulty_weight(), s.quorum_threshold(), s.subquorum_threshold());
+                        let f = (n - 1) / 5;
+                        let want = (n, f, n - f, n - 3 * f);
+                        if got != want {
+                            rep.violations.push(Violation { key: key("schedule_total"), what: format!("Schedule::new({ws:?}, leader-eligible subset {leaders:#b}): (total, f, quorum, sub-quorum) = {got:?}, exact arithmetic gives {want:?}"), replay: json!({"harness":"c07","weights":ws,"leaders":leaders}) });
+                        }
                     }
                 }
             }
         }
     }
+    rep.violations.dedup_by(|a, b| a.key == b.key);
     if samples.is_empty() {
         samples.push(json!({"n": 1}));
     }
